@@ -76,7 +76,12 @@ def run(ctx):
     ctx.evaluations += res["n"]
     ctx.distinct |= {("client_names", i) for i in range(res["n"])}
     for f in res["findings"]:
+        if set(f["fields"]) & {"pi", "gate"} or set(f["fields"]) <= {"sa", "ns"}:
+            # the client's pointer / gate discipline is C19's business, its stop callback C07's: noted only
+            ctx.notes.append(f"client-level mismatch outside this property ({f['fields']}) seen in family client_names")
+            continue
         ctx.violation(f"Client/client_names/{f['cause']}/{'+'.join(f['fields'])}", {"kind": "client-trace", "family": "client_names", **f})
+    ctx.notes[:] = sorted(set(ctx.notes))[:20]
     ctx.rule += "; connection level: name announced in the server hello x name in the encrypted HelloResponse x expected name, on the real APIConnection, validated by TLC"
 
 
